@@ -91,7 +91,8 @@ func DisturbRun() {
 	k := int(runTick.Add(1))
 	s := disturbScripts[k%len(disturbScripts)]
 	pt := NewPoint("leak_m", map[string]string{"leak_tag": "LEAK"}, map[string]any{"message": "abc 123", "leak_f": int64(1)})
-	_, _ = RunV1(s, pt, &fireSig{left: 40 + k%7})
+	// the signal fires late: after the assignments and inside the loops (d6 is ended by it, the others end on their own)
+	_, _ = RunV1(s, pt, &fireSig{left: 400 + k%7})
 }
 
 // DisturbCount reports how many disturbance scripts loaded (for evidence).
